@@ -4,6 +4,7 @@ import (
 	"fmt"
 	"math/big"
 
+	"github.com/ElrondNetwork/elrond-go/vm"
 	vmcommon "github.com/ElrondNetwork/elrond-vm-common"
 
 	"verifsim/simkit"
@@ -34,11 +35,11 @@ func synthAddr(i int) []byte {
 const maxSynth = 4
 
 type synthWorld struct {
-	e        *env
-	plan     *simkit.Plan
-	seq      int
-	invoked  [maxSynth]int
-	total    int
+	e                *env
+	plan             *simkit.Plan
+	seq              int
+	invoked          [maxSynth]int
+	total            int
 	failedAfterWrite bool
 }
 
@@ -47,9 +48,9 @@ type synthSC struct {
 	idx int
 }
 
-func (s *synthSC) CanUseContract() bool          { return true }
-func (s *synthSC) SetNewGasCost(_ interface{})   {}
-func (s *synthSC) IsInterfaceNil() bool          { return s == nil }
+func (s *synthSC) CanUseContract() bool       { return true }
+func (s *synthSC) SetNewGasCost(_ vm.GasCost) {}
+func (s *synthSC) IsInterfaceNil() bool       { return s == nil }
 
 func (w *synthWorld) fresh() []byte {
 	w.seq++
@@ -117,8 +118,6 @@ func (s *synthSC) Execute(args *vmcommon.ContractCallInput) vmcommon.ReturnCode 
 	}
 	return vmcommon.Ok
 }
-
-// synthSC must satisfy vm.SystemSmartContract (SetNewGasCost takes vm.GasCost).
 
 func genSynth(r *simkit.Rand) *simkit.Plan {
 	p := &simkit.Plan{Knobs: map[string]int64{"run": runSynth}, Arm: "synth"}
@@ -198,7 +197,7 @@ func execSynth(c *simkit.Ctx) bool {
 	}
 	w := &synthWorld{e: e, plan: c.Plan}
 	for i := 0; i < maxSynth; i++ {
-		if err := e.cont.Add(synthAddr(i), &synthAdapter{&synthSC{w: w, idx: i}}); err != nil {
+		if err := e.cont.Add(synthAddr(i), &synthSC{w: w, idx: i}); err != nil {
 			c.HarnessErr("container.Add: %v", err)
 			return false
 		}
